@@ -25,8 +25,18 @@ def dbCmd (db : DbL) (ws : List String) : Option (DbL × String) :=
     | some its => some (db.write its, "ok")
     | none => some (db, "bad-op")
   | ["db.flush", id] => id.toNat?.map fun id => (db.flush id, "ok")
+  | ["db.ingest", id, items] =>
+    match id.toNat?, (items.splitOn ";").mapM (fun s => match s.splitOn ":" with
+        | [k, "~"] => (ofHex k).map fun k => (k, (none : Option Val))
+        | [k, v] => do pure (← ofHex k, some (← ofHex v))
+        | _ => none) with
+    | some id, some its => some (db.ingest id its, "ok")
+    | _, _ => some (db, "bad-op")
   | ["db.lowerpersisted", id, v] =>
-    id.toNat?.map fun id => (db.lowerPersisted id (if v = "none" then none else v.toNat?), "ok")
+    id.toNat?.map fun id =>
+      let db' := db.lowerPersisted id (if v = "none" then none else v.toNat?)
+      -- the model's assumption about observed values (`KsL.physOk`, part of `DOp.WF`)
+      (db', if db'.kss.all (fun k => k.id != id || k.physOk) then "ok" else "phys-violated")
   | ["db.rotate", id] => id.toNat?.map fun id => (db.rotate id, "ok")
   | ["db.flushsealed", id] => id.toNat?.map fun id => (db.flushSealed id, "ok")
   | ["db.bump", n] => n.toNat?.map fun n => ({ db with seqno := db.seqno + n }, "ok")
